@@ -74,6 +74,29 @@ func (e *Env) tr(text string, hint string) (res Term, err error) {
 	return t, nil
 }
 
+// letFn is the value of a `let` abbreviation: translated in the environment where it is used.
+type letFn func(*Env) (Term, types.Type)
+
+// trTyped is tr that also returns the Go type of the expression (nil for spec-level values).
+func (e *Env) trTyped(text string, hint string) (res Term, ty types.Type, err error) {
+	pk := ""
+	if e.pkg != nil {
+		pk = shortPkg(e.pkg.Path())
+	}
+	src := desugarImplies(expandMacros(text, pk, parsedMacros))
+	ex, perr := parser.ParseExpr(src)
+	if perr != nil {
+		return Term{}, nil, fmt.Errorf("parse %q: %v", src, perr)
+	}
+	defer func() {
+		if r := recover(); r != nil {
+			err = fmt.Errorf("translate %q: %v", text, r)
+		}
+	}()
+	t, tt := e.expr(ex, hint)
+	return t, tt, nil
+}
+
 func (e *Env) sorts() *Sorts { return e.f.vc.sorts }
 
 func (e *Env) expr(x ast.Expr, hint string) (Term, types.Type) {
@@ -115,6 +138,15 @@ func (e *Env) expr(x ast.Expr, hint string) (Term, types.Type) {
 	case *ast.SelectorExpr:
 		if id, ok := n.X.(*ast.Ident); ok && id.Name == "spec" {
 			return e.specConst(n.Sel.Name), nil
+		}
+		if id, ok := n.X.(*ast.Ident); ok && id.Name == "ghost" {
+			srt, ok := parsedGhosts[n.Sel.Name]
+			if !ok {
+				panic("unknown ghost variable " + n.Sel.Name)
+			}
+			key := "X:ghost." + n.Sel.Name
+			f.vc.compSrt[key] = normSort(srt)
+			return e.st.get(key), nil
 		}
 		base, bt := e.expr(n.X, "")
 		return e.selectField(base, bt, n.Sel.Name)
@@ -227,6 +259,9 @@ func (e *Env) ident(name string, hint string) (Term, types.Type) {
 		return Term{"now!0", sInt}, nil
 	}
 	if ev, ok := e.vars[name]; ok {
+		if lf, isLet := ev.V.(letFn); isLet {
+			return lf(e)
+		}
 		return e.evTerm(ev), ev.T
 	}
 	if e.lookup != nil {
@@ -250,6 +285,16 @@ func (e *Env) ident(name string, hint string) (Term, types.Type) {
 		if obj := e.pkg.Scope().Lookup(name); obj != nil {
 			if c, ok := obj.(*types.Const); ok {
 				return f.constTerm(ssa.NewConst(c.Val(), c.Type())), c.Type()
+			}
+			if v, ok := obj.(*types.Var); ok {
+				// a package-level variable: its value in the current state
+				if sp := f.vc.w.pkgs[e.pkg.Path()]; sp != nil {
+					if g, ok := sp.Members[name].(*ssa.Global); ok {
+						if a, ok := f.value(g, e.st).(*Addr); ok {
+							return f.load(a, e.st), v.Type()
+						}
+					}
+				}
 			}
 		}
 	}
@@ -498,8 +543,13 @@ func (e *Env) index(base Term, bt types.Type, idx ast.Expr) (Term, types.Type) {
 		if mt, ok := bt.Underlying().(*types.Map); ok {
 			_, vk, ks, vs := f.mapKeys(mt)
 			k, _ := e.expr(idx, ks)
-			return T(vs, "(select (select %s %s) %s)", e.st.get(vk).S, base.S, k.S), mt.Elem()
+			return f.vc.sel2(e.st.get(vk), base, k, vs), mt.Elem()
 		}
+	}
+	if ks, vs, ok := arraySorts(base.Sort); ok && ks != sInt {
+		// a ghost map: index by the key sort
+		k, _ := e.expr(idx, ks)
+		return T(normSort(vs), "(select %s %s)", base.S, k.S), nil
 	}
 	i, _ := e.expr(idx, f.vc.sorts.wordSort())
 	var et types.Type
@@ -603,6 +653,41 @@ func (e *Env) callExpr(n *ast.CallExpr, hint string) (Term, types.Type) {
 		a, _ := e.expr(n.Args[0], sBool)
 		b, _ := e.expr(n.Args[1], sBool)
 		return tImp(a, b), nil
+	case "upd":
+		// upd(a, k, v): the ghost map a with key k set to v
+		a, _ := e.expr(n.Args[0], "")
+		ks, vs, ok := arraySorts(a.Sort)
+		if !ok {
+			panic("upd of a non-map " + a.Sort)
+		}
+		k, _ := e.expr(n.Args[1], ks)
+		v, _ := e.expr(n.Args[2], vs)
+		return T(a.Sort, "(store %s %s %s)", a.S, k.S, v.S), nil
+	case "ifaceptr":
+		// ifaceptr(x): the pointer held by a non-empty interface value (io.Writer holding an *os.File)
+		t, _ := e.expr(n.Args[0], sIfc)
+		f.vc.declareFunOnce("ifc.ptr", []string{sInt}, sInt)
+		return T(sRef, "(ifc.ptr %s)", t.S), nil
+	case "asptr":
+		// asptr(v, T): the *T held by the interface value v (T a named type of the package)
+		t, _ := e.expr(n.Args[0], sVal)
+		tn := n.Args[1].(*ast.Ident).Name
+		obj := e.pkg.Scope().Lookup(tn)
+		if obj == nil {
+			panic("asptr: unknown type " + tn)
+		}
+		return T(sRef, "(pay %s)", t.S), types.NewPointer(obj.Type())
+	case "hastype":
+		// hastype(v, "*mongokit.Changes"): the interface value holds exactly that (non-BSON) Go type
+		t, _ := e.expr(n.Args[0], sVal)
+		name, _ := strconv.Unquote(n.Args[1].(*ast.BasicLit).Value)
+		id := int(hashString(name)%1000000) + 100
+		return T(sBool, "(and ((_ is VOther) %s) (= (tid %s) %d) (not (= (pay %s) 0)))", t.S, t.S, id, t.S), nil
+	case "same":
+		// structural (SMT) equality: for floats, identical bit patterns up to NaN payload
+		a, _ := e.expr(n.Args[0], hint)
+		b, _ := e.expr(n.Args[1], a.Sort)
+		return tEq(a, b), nil
 	case "iff":
 		a, _ := e.expr(n.Args[0], sBool)
 		b, _ := e.expr(n.Args[1], sBool)
@@ -630,8 +715,18 @@ func (e *Env) callExpr(n *ast.CallExpr, hint string) (Term, types.Type) {
 		ne.vars[v] = EV{Term{qn, ws}, types.Typ[types.Int]}
 		body, _ := ne.expr(n.Args[3], sBool)
 		rng := tAnd(f.wLe(lo, Term{qn, ws}), f.wLt(Term{qn, ws}, hi))
+		pat := ""
+		if strings.Contains(body.S, "(witness "+qn+")") {
+			pat = fmt.Sprintf(" :pattern ((witness %s))", qn) // see specs/base.smt2
+		}
 		if id.Name == "forall" {
+			if pat != "" {
+				return T(sBool, "(forall ((%s %s)) (! %s%s))", qn, ws, tImp(rng, body).S, pat), nil
+			}
 			return T(sBool, "(forall ((%s %s)) %s)", qn, ws, tImp(rng, body).S), nil
+		}
+		if pat != "" {
+			return T(sBool, "(exists ((%s %s)) (! %s%s))", qn, ws, tAnd(rng, body).S, pat), nil
 		}
 		return T(sBool, "(exists ((%s %s)) %s)", qn, ws, tAnd(rng, body).S), nil
 	case "all", "any":
@@ -687,7 +782,7 @@ func (e *Env) callExpr(n *ast.CallExpr, hint string) (Term, types.Type) {
 		mm := mt.Underlying().(*types.Map)
 		hk, _, ks, _ := f.mapKeys(mm)
 		k, _ := e.expr(n.Args[1], ks)
-		return T(sBool, "(and (not (= %s 0)) (select (select %s %s) %s))", m.S, e.st.get(hk).S, m.S, k.S), nil
+		return tAnd(T(sBool, "(not (= %s 0))", m.S), f.vc.sel2(e.st.get(hk), m, k, sBool)), nil
 	case "elems":
 		// the backing array content of a heap slice
 		s, st := e.expr(n.Args[0], sSl)
@@ -720,6 +815,18 @@ func (e *Env) callExpr(n *ast.CallExpr, hint string) (Term, types.Type) {
 		return r.(Term), to
 	}
 	panic("unknown specification function " + id.Name)
+}
+
+// arraySorts splits "(Array K V)" into its key and value sorts.
+func arraySorts(s string) (k, v string, ok bool) {
+	if !strings.HasPrefix(s, "(Array ") {
+		return "", "", false
+	}
+	sx, err := parseSexps(s)
+	if err != nil || len(sx) != 1 || !sx[0].IsL || len(sx[0].List) != 3 {
+		return "", "", false
+	}
+	return normSort(sx[0].List[1].String()), normSort(sx[0].List[2].String()), true
 }
 
 func guessType(sort string) types.Type {
@@ -860,6 +967,17 @@ func (e *Env) modTarget(m string) (mt modTarget, err error) {
 	}
 	f := e.f
 	pre := e.atEntry()
+	if sel, ok := ex.(*ast.SelectorExpr); ok {
+		if id, ok := sel.X.(*ast.Ident); ok && id.Name == "ghost" {
+			srt, ok := parsedGhosts[sel.Sel.Name]
+			if !ok {
+				return mt, fmt.Errorf("unknown ghost variable %s", sel.Sel.Name)
+			}
+			key := "X:ghost." + sel.Sel.Name
+			f.vc.compSrt[key] = normSort(srt)
+			return modTarget{whole: true, key: key}, nil
+		}
+	}
 	switch n := ex.(type) {
 	case *ast.SelectorExpr:
 		base, bt := pre.expr(n.X, sRef)
